@@ -282,3 +282,73 @@ def check_cell_placement(facts, rep):
         rep.violation('E28.S4-cell-placement', inst, '; '.join(probs) + ': groups are printed in the wrong (i, j) cells', where=b.where())
     else:
         rep.ok('E28.S4-cell-placement', inst, 'get(isize2(col, row)); table calls entry(row, col) for all rows x cols')
+
+
+def check_digit_range(facts, rep):
+    """S5 (C20, "lists exactly the groups the library computes" - the exponents of the printed modules): the decimal digits
+    handed to superscript / subscript are digits. Every value IntoDigits::into_rev_digits emits (returned `Some(v)` of its
+    generator closure, pushed `v`, literal elements) is a literal 0..9, a remainder `x % 10`, or a value the path
+    conditions bound by 9. A peeling loop guarded by `num > 10` exits with num <= 10: the leading "digit" of 10, 100..109, ..
+    is 10, which the superscript table renders as `+` - `Z^10` prints as `Z+`, exit code 0."""
+    import re
+    from symex import SymEx, show, strip
+    fn = {k: b for k, b in facts.bodies.items() if 'misc::digits::IntoDigits>::into_rev_digits' in k and '<usize as' in k}
+    root = [b for b in fn.values() if b.kind != 'Closure']
+    if len(root) != 1:
+        rep.indet('E28.S5: IntoDigits::into_rev_digits for usize not found')
+        return
+
+    def dk(t):
+        return re.sub(r'#(?:i\d+:)?\d+\.\d+', '', show(t, -1000))
+
+    def core(t):
+        t = strip(t)
+        while t[0] == 'cast':
+            t = strip(t[2])
+        return t
+    emitted = []      # (term, conditions)
+    for b in fn.values():
+        rep.saw(b)
+        for p in SymEx(b, havoc_loops=True, max_paths=4000).run():
+            conds = [(dk(e.term), e.value) for e in p.branches() if not (e.name or '').startswith('assert:')]
+            if b.kind == 'Closure' and p.end == 'return':
+                r = strip(p.ret)
+                if r[0] == 'adt' and r[2] == 'Some':
+                    emitted.append((core(r[4][0]), conds))
+            for e in p.calls():
+                if e.name.split('::')[-1] == 'push' and len(e.args) == 2:
+                    emitted.append((core(e.args[1]), conds))
+    if not emitted:
+        rep.indet('E28.S5: into_rev_digits emits nothing recognisable')
+        return
+    bad, unknown = [], []
+    n = 0
+    for v, conds in emitted:
+        n += 1
+        s = dk(v)
+        if v[0] == 'const' and isinstance(v[1], int):
+            if not 0 <= v[1] <= 9:
+                bad.append('the literal %d is emitted as a digit' % v[1])
+            continue
+        if v[0] == 'bin' and v[1] == 'Rem' and strip(v[3]) == ('const', 10):
+            continue
+        ub = None
+        for c, val in conds:
+            m = re.match(r'(Gt|Ge|Lt|Le)\(%s, (\d+)\)$' % re.escape(s), c)
+            if m:
+                k = int(m.group(2))
+                truth = val != 0
+                bound = {('Gt', False): k, ('Ge', False): k - 1, ('Lt', True): k - 1, ('Le', True): k}.get((m.group(1), truth))
+                if bound is not None:
+                    ub = bound if ub is None else min(ub, bound)
+        if ub is None:
+            unknown.append(s[:60])
+        elif ub > 9:
+            bad.append('`%s` is emitted as a digit although the path only establishes %s <= %d' % (s, s, ub))
+    inst = 'IntoDigits::into_rev_digits|every emitted value is a decimal digit'
+    if bad:
+        rep.violation('E28.S5-digits-are-digits', inst, 'into_rev_digits: %s - the number 10 (and 100..109, ..) keeps a leading "digit" 10, which superscript() renders through its table as `+`: a rank-10 group is printed as Z+ in the kh / ckh table' % sorted(set(bad))[0], where=root[0].where())
+    elif unknown:
+        rep.indet('E28.S5: digits emitted by into_rev_digits outside the recognised fragment: %s' % sorted(set(unknown))[:2])
+    else:
+        rep.ok('E28.S5-digits-are-digits', inst, '%d emission(s): literals 0..9, x %% 10, or bounded by the exit condition' % n)
